@@ -49,7 +49,15 @@ func runC03History(r *mon.Run, stream uint64) {
 			}
 		}
 	}
-	node, rec, err := chainlab.NewTestNodeRec(env, nil)
+	// one run in five puts the store on the write-caching wrapper: the commit
+	// images are then those of the UNDERLYING database
+	var inner *chainlab.ShadowDB
+	var backend chain.DB
+	if rng.IntN(5) == 0 {
+		inner = chainlab.NewShadowDB(chain.NewMemDB())
+		backend = chain.NewCacheDB(inner)
+	}
+	node, rec, err := chainlab.NewTestNodeRec(env, backend)
 	if err != nil {
 		r.Inconclusive(err.Error())
 		return
@@ -64,8 +72,15 @@ func runC03History(r *mon.Run, stream uint64) {
 	defer chain.VerifSetFlushPolicy(node.Store, nil)
 	var snaps []snapshot
 	a := chainlab.NewAuditor(t, node)
-	node.Shadow.OnFlush = func(durable map[string]map[string]string) {
+	onFlush := func(durable map[string]map[string]string) {
 		snaps = append(snaps, snapshot{img: chainlab.CloneImage(durable), tip: rec.Cur, midReorg: rec.InBlockOp, call: a.Calls})
+	}
+	if inner != nil {
+		inner.OnFlush = onFlush
+		policy += "+cachedb"
+		r.Count("histories_on_cachedb", 1)
+	} else {
+		node.Shadow.OnFlush = onFlush
 	}
 	cs := c03Case{Stream: stream, Params: p, Policy: policy}
 	sched := t.RandomSchedule(rng)
